@@ -3,7 +3,7 @@
 //! chain is replayed from the constructor; the enumeration is a tree cut at the first rejected
 //! call, with `solve()` tried after every accepted prefix.
 
-use crate::inst::{dispatch, make_deriv, make_vec, DerivBox, DtBounds, SimData, StubHooks, Visitor};
+use crate::inst::{dispatch, make_deriv, make_vec, DerivBox, DtBounds, SimData, SolverBounds, StubHooks, Visitor};
 use crate::model::{ErrClass, Expect, Model, Outcome};
 use crate::run::{execute, Budget, ExecOpts};
 use crate::spec::*;
@@ -108,6 +108,11 @@ impl StubHooks for NoHooks {
     }
 }
 
+thread_local! {
+    /// the chain the fast path is replaying right now, so that a panic can be attributed
+    static CURRENT_CHAIN: std::cell::RefCell<Vec<BOp>> = const { std::cell::RefCell::new(Vec::new()) };
+}
+
 #[derive(Default)]
 pub struct ChainStats {
     pub chains: u64,
@@ -120,6 +125,8 @@ pub struct ChainStats {
     pub hook_both: u64,
     pub hook_clamped: u64,
     pub euler_tol_ok: u64,
+    pub builder_inverted: u64,
+    pub solver_reads: u64,
     pub hash: u64,
     pub mismatch: Option<Vec<BOp>>,
 }
@@ -140,9 +147,16 @@ where
     S: IVPSolver<'static, D, Error = IVPError, Field = N, RealField = f64, UserData = U, Derivative = DerivBox<N, D, U>>
         + DtBounds
         + 'static,
+    S::Solver: SolverBounds,
 {
     let mut model = Model::new(euler, dim.dynamic);
     let n = dim.n as usize;
+    CURRENT_CHAIN.with(|c| {
+        let mut c = c.borrow_mut();
+        c.clear();
+        c.push(*ctor);
+        c.extend_from_slice(ops);
+    });
     cs.chains += 1;
     cs.calls += 1;
     let exp = model.expect(ctor);
@@ -197,7 +211,9 @@ where
                     if let (Some(l), Some(h)) = (lo, hi) {
                         cs.hook_both += 1;
                         if !(l <= h) {
-                            return false;
+                            // only what reaches the solver is judged (below); a builder may
+                            // legitimately reconcile its bounds later
+                            cs.builder_inverted += 1;
                         }
                         // the call just made moved the *other* bound: a clamping branch ran
                         match *op {
@@ -221,8 +237,15 @@ where
     cs.calls += 1;
     let exp = model.expect(&BOp::Solve);
     match b.solve(U::fresh()) {
-        Ok(_it) => {
+        Ok(it) => {
             cs.built += 1;
+            // B7: the configuration handed to the solver has minimum <= maximum
+            if let Some((lo, hi)) = it.verif_solver().solver_bounds() {
+                cs.solver_reads += 1;
+                if !(lo <= hi) {
+                    return false;
+                }
+            }
             exp.admits(Outcome::Ok)
         }
         Err(e) => {
@@ -277,7 +300,7 @@ impl<'a> Visitor for EnumChains<'a> {
         S: IVPSolver<'static, D, Error = IVPError, Field = N, RealField = f64, UserData = U, Derivative = DerivBox<N, D, U>>
             + DtBounds
             + 'static,
-        S::Solver: 'static,
+        S::Solver: SolverBounds + 'static,
     {
         let hooks: Rc<dyn StubHooks> = Rc::new(NoHooks);
         let euler = self.kind.is_euler();
@@ -406,6 +429,8 @@ fn merge_chain_stats(st: &mut Stats, kind: Kind, cs: &ChainStats) {
     st.hook_reads += cs.hook_reads;
     st.hook_both_set += cs.hook_both;
     st.hook_clamped += cs.hook_clamped;
+    st.builder_inverted += cs.builder_inverted;
+    st.solver_bound_reads += cs.solver_reads;
     st.euler_tol_nonpositive_ok += cs.euler_tol_ok;
     st.chain_hash = st.chain_hash.wrapping_add(cs.hash);
 }
@@ -439,7 +464,13 @@ fn chain_spec(kind: Kind, dim: DimMode, field: Field, ops: Vec<BOp>, with_solve:
 /// A disagreement found by the fast path is confirmed through `execute`, which is what replay
 /// files run; only then is it a violation.
 fn confirm(mode: u8, unit: u64, kind: Kind, dim: DimMode, field: Field, chain: Vec<BOp>, st: &mut Stats, errs: &mut Vec<String>) {
-    let spec = chain_spec(kind, dim, field, chain.clone(), true);
+    confirm_with(mode, unit, kind, dim, field, DataMode::Unit, chain, st, errs)
+}
+
+#[allow(clippy::too_many_arguments)]
+fn confirm_with(mode: u8, unit: u64, kind: Kind, dim: DimMode, field: Field, data: DataMode, chain: Vec<BOp>, st: &mut Stats, errs: &mut Vec<String>) {
+    let mut spec = chain_spec(kind, dim, field, chain.clone(), true);
+    spec.instances[0].data = data;
     let b = [Budget { max_calls: 2_000, max_polls: 2_000 }];
     let r = execute(&spec, &b, &ExecOpts::default());
     match r.violation {
@@ -453,6 +484,7 @@ fn confirm(mode: u8, unit: u64, kind: Kind, dim: DimMode, field: Field, chain: V
 }
 
 pub fn run_bexh_unit(
+    mode: u8,
     ui: u64,
     unit: &(Kind, DimMode, Field, BOp, Option<usize>),
     alphabet: &[BOp],
@@ -467,13 +499,25 @@ pub fn run_bexh_unit(
         Ok(cs) => {
             merge_chain_stats(st, kind, &cs);
             if let Some(chain) = cs.mismatch {
-                confirm(crate::stats::MODE_BEXH, ui, kind, dim, field, chain, st, errs);
+                confirm(mode, ui, kind, dim, field, chain, st, errs);
             }
         }
         Err(_) => {
-            // B6: some chain of this unit panicked; find it through the slow path, which
-            // catches panics per call
-            find_panic(ui, kind, dim, field, ctor, first, alphabet, maxlen, st, errs);
+            // B6: a chain of this unit panicked; it is the one the fast path was replaying.
+            // Confirm it through the replayable path, which catches panics per call.
+            let chain = CURRENT_CHAIN.with(|c| c.borrow().clone());
+            let before = st.violations.len();
+            if !chain.is_empty() {
+                let spec = chain_spec(kind, dim, field, chain, true);
+                let b = [Budget { max_calls: 2_000, max_polls: 2_000 }];
+                let r = execute(&spec, &b, &ExecOpts::default());
+                if let Some(v) = r.violation {
+                    st.violations.push(FoundViolation { id: (mode, ui, 0), spec, budgets: b.to_vec(), violation: v });
+                }
+            }
+            if st.violations.len() == before {
+                find_panic(ui, kind, dim, field, ctor, first, alphabet, maxlen, st, errs);
+            }
         }
     }
 }
@@ -548,7 +592,7 @@ impl<'a> Visitor for EvalOne<'a> {
         S: IVPSolver<'static, D, Error = IVPError, Field = N, RealField = f64, UserData = U, Derivative = DerivBox<N, D, U>>
             + DtBounds
             + 'static,
-        S::Solver: 'static,
+        S::Solver: SolverBounds + 'static,
     {
         let hooks: Rc<dyn StubHooks> = Rc::new(NoHooks);
         eval_chain::<S, N, D, U>(&self.ctor, self.ops, self.dim, self.euler, &hooks, self.cs)
@@ -649,15 +693,52 @@ pub fn run_bperm_unit(ui: u64, unit: &(Kind, DimMode, Field), st: &mut Stats, er
         for p in perms.iter() {
             let ops: Vec<BOp> = p.iter().map(|&i| setters[i]).collect();
             let before_built = cs.built;
+            let data = if ui % 2 == 0 { DataMode::Unit } else { DataMode::Counter };
             let ok = {
                 let v = EvalOne { ctor, ops: &ops, dim, euler: kind.is_euler(), cs: &mut cs };
-                catch_unwind(AssertUnwindSafe(|| dispatch(kind, dim, field, DataMode::Unit, v))).unwrap_or(false)
+                catch_unwind(AssertUnwindSafe(|| dispatch(kind, dim, field, data, v))).unwrap_or(false)
             };
             if !ok || cs.built != before_built + 1 {
                 let mut full = vec![ctor];
                 full.extend(ops.iter().copied());
                 merge_chain_stats(st, kind, &cs);
-                confirm(crate::stats::MODE_BPERM, ui, kind, dim, field, full, st, errs);
+                confirm_with(crate::stats::MODE_BPERM, ui, kind, dim, field, data, full, st, errs);
+                return;
+            }
+        }
+    }
+    merge_chain_stats(st, kind, &cs);
+}
+
+// ---------------------------------------------------------------------------------------------
+// complete configuration minus every subset of its setters
+
+/// Units: one per builder instantiation. The seven setters of a complete configuration in three
+/// orders, with every non-empty subset left out: `solve()` must report `MissingParameters`
+/// exactly when a mandatory parameter is among the missing ones (for Euler the tolerance is not
+/// mandatory and one of the two step bounds suffices).
+pub fn run_bmissing_unit(ui: u64, unit: &(Kind, DimMode, Field), st: &mut Stats, errs: &mut Vec<String>) {
+    let (kind, dim, field) = *unit;
+    let data = if ui % 2 == 0 { DataMode::Unit } else { DataMode::Counter };
+    let ctor = if dim.dynamic { BOp::NewDyn(dim.n) } else { BOp::New };
+    let orders: [[BOp; 7]; 3] = [
+        [BOp::Tol(1e-3), BOp::Max(0.05), BOp::Min(1e-3), BOp::Start(0.0), BOp::End(1.0), BOp::IcSlice, BOp::Deriv],
+        [BOp::Deriv, BOp::IcVec, BOp::End(1.0), BOp::Start(0.0), BOp::Min(0.2), BOp::Max(0.05), BOp::Tol(1e-3)],
+        [BOp::Min(1e-3), BOp::End(3.0), BOp::Tol(1e-3), BOp::IcSlice, BOp::Max(0.5), BOp::Deriv, BOp::Start(2.0)],
+    ];
+    let mut cs = ChainStats::default();
+    for base in orders.iter() {
+        for mask in 1u32..128 {
+            let ops: Vec<BOp> = base.iter().enumerate().filter(|(i, _)| mask & (1 << i) == 0).map(|(_, o)| *o).collect();
+            let ok = {
+                let v = EvalOne { ctor, ops: &ops, dim, euler: kind.is_euler(), cs: &mut cs };
+                catch_unwind(AssertUnwindSafe(|| dispatch(kind, dim, field, data, v))).unwrap_or(false)
+            };
+            if !ok {
+                let mut full = vec![ctor];
+                full.extend(ops.iter().copied());
+                merge_chain_stats(st, kind, &cs);
+                confirm_with(crate::stats::MODE_BMISS, ui, kind, dim, field, data, full, st, errs);
                 return;
             }
         }
